@@ -24,6 +24,7 @@ func init() {
 			"R6": "rotation rewrites the waiting flag only for occupied, non-eligible seats",
 			"R7": "refusal propagates out of open as the open-failed error",
 			"R8": "seated-in pairing (as C03.R7)",
+			"R9": "seat-manager side of eligibility: UpdatePlayerHasChips writes the given flag to HasChips of the seat found for the id; IsPlayerActive answers Active() of that seat and (false, err) for an unknown id; InitPositions marks initialised only after a successful initialisation and never initialises twice",
 		},
 		Assumptions: []string{},
 		Run:         checkC05,
@@ -129,6 +130,7 @@ func checkC05(c *Ctx) {
 		c.Check(okNew, "R1", "open-success-returns-rotated-clone", p.Pos(open.Pos()), fmt.Sprintf("%d success exit(s) return the clone after a successful rotation", len(okRets)), dNew)
 	}
 	checkOpenRotation(c, "R1")
+	checkSeatFlagDefs(c, "R9")
 	okOld := !ab
 	d := ""
 	for _, r := range errRets {
@@ -473,6 +475,18 @@ func checkWaitingArc(c *Ctx, rule string, smT *types.Named) {
 		return
 	}
 	dealer, bb, target := arc.Params[1], arc.Params[2], arc.Params[3]
+	// the public predicate asks the arc from the DEALER seat to the BB seat for the player's own seat
+	for _, ci := range Calls(pred) {
+		if ci.Common().StaticCallee() != arc {
+			continue
+		}
+		cs := p.CallSym(ci)
+		okArgs := len(cs.Args) == 4 &&
+			(cs.Args[1].IsCall("seatManager.CurrentDealerSeatID") || cs.Args[1].Strip().IsField("seatManager", "DealerSeatID")) &&
+			(cs.Args[2].IsCall("seatManager.CurrentBBSeatID") || cs.Args[2].Strip().IsField("seatManager", "BBSeatID")) &&
+			cs.Args[3].Strip().Kind == "rangekey"
+		c.Check(okArgs, rule, "waiting-arc:arguments", p.InstrPos(ci), "arc(dealer seat, bb seat, the player's seat)", "the waiting predicate does not ask for the arc from the dealer seat to the big-blind seat around the player's own seat")
+	}
 	where := p.Pos(arc.Pos())
 	isMax := func(s *Sym) bool { return s.Strip().IsField("seatManager", "MaxSeat") }
 	sum := func(s *Sym, a func(*Sym) bool, b func(*Sym) bool) bool {
@@ -530,6 +544,90 @@ func checkWaitingArc(c *Ctx, rule string, smT *types.Named) {
 		}
 	}
 	c.Check(bad == "" && nCmp >= 3, rule, "waiting-arc:strict", where, "target compared strictly with dealer and bb", "the waiting predicate compares the target seat non-strictly ("+bad+"): the dealer or big-blind seat itself would count as 'between'")
+
+	// the whole definition, piece by piece:
+	//   short deck → false;  bb < dealer (arc wraps) → true as soon as some i of the wrap
+	//   loop has i % MaxSeat == target;  otherwise / afterwards → target < bb ∧ target > dealer
+	isShort := func(gs []Guard, val bool) bool {
+		return cmpHolds(gs, func(l, r *Sym, op token.Token) bool {
+			s, _ := r.ConstString()
+			want := token.EQL
+			if !val {
+				want = token.NEQ
+			}
+			return op == want && l.Strip().IsField("seatManager", "Rule") && s == "short_deck"
+		})
+	}
+	wraps := func(gs []Guard) bool {
+		return cmpHolds(gs, func(l, r *Sym, op token.Token) bool {
+			l, r = l.Strip(), r.Strip()
+			if z, isZ := r.ConstInt(); isZ && z == 0 && op == token.LSS && l.Kind == "binop" && l.Name == "-" && symIsParam(l.Args[0], bb) && symIsParam(l.Args[1], dealer) {
+				return true
+			}
+			return op == token.LSS && symIsParam(l, bb) && symIsParam(r, dealer)
+		})
+	}
+	d := ""
+	nTrue, nFinal, nShort := 0, 0, 0
+	for _, b := range arc.Blocks {
+		r, isR := b.Instrs[len(b.Instrs)-1].(*ssa.Return)
+		if !isR || len(r.Results) != 1 {
+			continue
+		}
+		gs := p.Guards(r)
+		if k, isK := r.Results[0].(*ssa.Const); isK {
+			v, _ := constBool(k)
+			switch {
+			case !v && isShort(gs, true):
+				nShort++
+			case v:
+				// inside the wrap loop, on a hit
+				nTrue++
+				hit := cmpHolds(gs, func(l, r *Sym, op token.Token) bool {
+					l = l.Strip()
+					return op == token.EQL && symIsParam(r, target) && l.Kind == "binop" && l.Name == "%" && isMax(l.Args[1]) && l.Args[0].Strip().Kind == "ind"
+				})
+				if !hit || !wraps(gs) || !isShort(gs, false) {
+					d = "the predicate answers true at " + p.InstrPos(r) + " without a seat of the wrapping arc being the target seat"
+				}
+			default:
+				d = "the predicate answers a constant " + fmt.Sprint(v) + " at " + p.InstrPos(r)
+			}
+			continue
+		}
+		// final answer: target < bb ∧ target > dealer, on default-rule tables
+		nFinal++
+		atoms := p.unfold(r.Results[0], true, nil, 0)
+		lt, gt := false, false
+		for _, g := range atoms {
+			if cm := g.AsCmp(); cm != nil {
+				l, rr, op := cm.L.Strip(), cm.R.Strip(), cm.Op
+				for k := 0; k < 2; k++ {
+					if symIsParam(l, target) && symIsParam(rr, bb) && op == token.LSS {
+						lt = true
+					}
+					if symIsParam(l, target) && symIsParam(rr, dealer) && op == token.GTR {
+						gt = true
+					}
+					l, rr, op = rr, l, flipOp(op)
+				}
+			}
+		}
+		nT := 0
+		for _, g := range atoms {
+			if g.Cond.Contains(func(x *Sym) bool { return symIsParam(x, target) }) {
+				nT++
+			}
+		}
+		if !(lt && gt && nT == 2) || !isShort(gs, false) {
+			d = "the non-wrapping answer is not target < bb ∧ target > dealer (on a default-rule table)"
+		}
+	}
+	if d == "" && (nTrue != 1 || nFinal != 1 || nShort != 1) {
+		d = fmt.Sprintf("unexpected exits: %d hit exit(s), %d final answer(s), %d short-deck refusal(s)", nTrue, nFinal, nShort)
+	}
+	// the hit test is the only way out of the wrap loop besides its end
+	c.Check(d == "", rule, "waiting-arc:definition", where, "short deck → false; wrap ∧ some i%N == target → true; else target < bb ∧ target > dealer", "waiting predicate: "+d)
 }
 
 // checkDealtInCopy: at open, every player's dealt-in flag is copied from the seat manager's
